@@ -185,6 +185,8 @@ def check(model, rep):
         fi = arm.methods.get(name)
         if fi is None:
             raise AnalysisError('anchor vanished: Arm.' + name)
+        from .common_ops import flat_method as _fm71
+        fi = _fm71(arm, name, stop=('FK', 'IK', 'constrainedIK', 'IKFree'))          # private solve helpers read in place
         for c in [x for x in ast.walk(fi.node) if isinstance(x, ast.Call) and isinstance(x.func, ast.Attribute)          # local closures included
                   and x.func.attr in ('IKinSpace', 'IKinSpaceConstrained', 'IKinBody')]:
             r = model.resolve_call(fi, c)
